@@ -112,6 +112,41 @@ Theorem C09_dual_count_group_chunking_independent :
 Proof. exact dual_count_group_chunking_independent. Qed.
 Print Assumptions C09_dual_count_group_chunking_independent.
 
+(* ANY number >= 2 of outputs, in ANY order, each either a per-row output (any payload; window-local within the
+   margins) or the group former with threshold G: the cut sets are nested, so every output equals one
+   computation over the whole run, for every chunking. *)
+Theorem C09_rows_and_group_outputs_chunking_independent :
+  forall G wtuple wl wr ml mr outs orun otgt sw R a b dt run cs,
+  0 <= wl -> 0 <= wr -> ml <= 2 * wl -> mr <= 2 * wr -> (1 < length outs)%nat ->
+  (forall o, In o outs -> window_local ml mr (oo_f o)) ->
+  (forall o, In o outs -> (exists h, oo_f o = f_row h) \/ oo_f o = f_group G) ->
+  dsp R -> chunking_of R a b dt run cs ->
+  exists items,
+    ow_iter (mk_ow_params wtuple wl wr outs orun otgt sw) cs = Ok items /\
+    forall k o, nth_error outs k = Some o ->
+      flat_map crows (out_stream k items) = oo_f o R /\
+      contiguous_from a (out_stream k items) /\ last_end a (out_stream k items) = b /\
+      Forall wf (out_stream k items).
+Proof. exact rows_and_group_chunking_independent. Qed.
+Print Assumptions C09_rows_and_group_outputs_chunking_independent.
+
+(* the outputs of the harness plugins (neighbour count, plain copy, group former), any number >= 2 in any order;
+   the generator's three-output plugins are instances (Example harness_triple_example) *)
+Theorem C09_harness_outputs_chunking_independent :
+  forall kl kr G wtuple wl wr outs orun otgt sw R a b dt run cs,
+  0 <= kl -> 0 <= kr -> kl <= 2 * wl -> kr <= 2 * wr -> 0 <= G -> G <= 2 * wl -> G <= 2 * wr ->
+  (1 < length outs)%nat ->
+  (forall o, In o outs -> oo_f o = f_count kl kr \/ oo_f o = f_copy \/ oo_f o = f_group G) ->
+  dsp R -> chunking_of R a b dt run cs ->
+  exists items,
+    ow_iter (mk_ow_params wtuple wl wr outs orun otgt sw) cs = Ok items /\
+    forall k o, nth_error outs k = Some o ->
+      flat_map crows (out_stream k items) = oo_f o R /\
+      contiguous_from a (out_stream k items) /\ last_end a (out_stream k items) = b /\
+      Forall wf (out_stream k items).
+Proof. exact harness_outputs_chunking_independent. Qed.
+Print Assumptions C09_harness_outputs_chunking_independent.
+
 (* DESIGN section 7, T6: the final `yield self.cached_results` never yields None, and a run with no
    input chunk fails (ValueError "Cannot work with empty input buffer") before reaching it. *)
 Theorem C09_flush_never_none : forall P cs items,
